@@ -286,11 +286,11 @@ pub fn run(tier: Tier) -> i32 {
         }
     }));
     // (d) namespace URIs with characters that need escaping
-    const SIGMA_URI: [&str; 8] = ["u", "&", "<", ">", "\"", "'", " ", "\u{e9}"];
+    const SIGMA_URI: [&str; 10] = ["u", "&", "<", ">", "\"", "'", " ", "\u{e9}", "\t", "\n"];
     let ut = strings_count(SIGMA_URI.len() as u64, 2);
     stats = stats.merge(par_range(&ctx, ut, |i, st| {
         let u = nth_str(&SIGMA_URI, 2, i);
-        if u.is_empty() || u.trim_matches(' ') != u || u.contains("  ") {
+        if u.is_empty() || u.trim_matches(' ') != u || u.contains("  ") || u.chars().all(|c| c.is_whitespace()) {
             return; // attribute-value normalisation is not at stake here; keep URIs free of edge spaces
         }
         for t in [A::el(&u, "a").decl("p", &u), A::el(&u, "a").decl("", &u), A::el("", "a").decl("p", &u).attr(&u, "k", "v")] {
